@@ -1397,6 +1397,9 @@ class Interp:
                 if m:
                     self.call_value(VFunc(m["v"], base), [idx, v], {}, fr, site)
                     return
+        if isinstance(base, VOpaque) and self.E.contract_of(base.tag + ".__setitem__"):
+            self.call_value(VFunc(base.tag + ".__setitem__", base), [idx, v], {}, fr, site)
+            return
         raise Unsupported("store into %s" % self.type_name(base))
 
     def s_AugAssign(self, s, fr):
